@@ -924,7 +924,7 @@ CONFIG["C13"] = dict(
 
 CONFIG["C12"] = dict(
     modules=["Mdns.Props.C12"],
-    model_files="Mdns/Model/Sched.lean",
+    model_files="Mdns/Model/Sched.lean, Mdns/Model/Client.lean",
     nontrivial=_sim_nontrivial,
     extra_evidence=_sim_extra,
     rule="(a) responder-free histories as in C19/C13: the model's requested wake-up is compared with the real daemon's at "
@@ -940,13 +940,21 @@ CONFIG["C12"] = dict(
                "model: every queued retransmission and resolver deadline has a timer no later than its due time, the "
                "requested wake-up is the minimum of the timers, passed timers are consumed, and the interface check never "
                "re-arms at `now` (interval 0 = disabled) - Lean theorems; the model's wake-up equals the real one on every "
-               "iteration of the responder-free histories.",
+               "iteration of the responder-free histories. On the CLIENT model (Client.iter, whose wake-up is compared with the real daemon's at every iteration of every "
+               "client history): the invariant TimersCover - for EVERY cached entry the expiry instant and the refresh mark (while "
+               "before the expiry) is a timer, every queued re-run (browse / resolve_hostname retransmission, follow-up resolve, "
+               "verify resend), every hostname-search deadline and the interface check has a timer - is preserved by iter for every "
+               "input (timersCover_iter), holds after every history from the fresh daemon (timersCover_always), hence "
+               "wake_never_late(_run): the requested wake-up is no later than any due work after the last iteration; "
+               "expiry_after_last, old_timers_popped; hfound_on_time (an iteration not later than the requested wake-up reports no "
+               "address whose record ran out before now).",
     level_note="Trusted: Lean kernel; allowed axioms only; simulation seams (the gate replaces the blocking poll, so the 1 ms "
                "floor of the real poll time-out is not exercised). The two-scheduler comparison is an oracle on the real "
                "code, not a theorem; probe steps, announcement repeats, refreshes, expiries and verify deadlines are covered "
                "by it, not yet by the model.",
-    partial=["wake_sound is proved for the scheduler fragment (retransmissions, resolver deadlines, interface check); probing, "
-             "record refresh/expiry and verify timers are checked by the two-scheduler oracle only"],
+    partial=["probing / announcement timers of the responder side are not in the client model (two-scheduler oracle and the "
+             "responder model's own theorems); a no-spin bound for the client model (refresh marks being caught up on a late "
+             "iteration) is not proved, the scheduler-fragment statements are"],
     assumptions=["one `now` per loop iteration", "hash-order dependent tie-breaks may make the two executions diverge; packet content is compared canonically (sorted, without TTLs)"],
 )
 
